@@ -26,10 +26,9 @@ import (
 //
 //	a, b := f()
 //	>>>
+//	ʌa1 := a
 //	ʌa1, b := f()
 //	a = ʌa1
-//
-// (constants and nil are assigned directly, they may have no type of their own)
 func (r *yieldRewriter) rewritePartialRedeclare(c *astutil.Cursor, n *ast.AssignStmt) {
 	if n.Tok != token.DEFINE || c.Index() < 0 {
 		return
@@ -45,22 +44,7 @@ func (r *yieldRewriter) rewritePartialRedeclare(c *astutil.Cursor, n *ast.Assign
 	}
 
 	info := r.pkg.TypesInfo
-	paired := len(n.Lhs) == len(n.Rhs)
-	rhsType := func(i int) types.Type {
-		if paired {
-			return info.TypeOf(n.Rhs[i])
-		}
-		if tup, ok := info.TypeOf(n.Rhs[0]).(*types.Tuple); ok && i < tup.Len() {
-			return tup.At(i).Type()
-		}
-		return nil
-	}
-
-	type redeclared struct {
-		idx    int
-		direct bool // constant or nil, assigned directly
-	}
-	var xs []redeclared
+	assign := &ast.AssignStmt{Tok: token.ASSIGN}
 	for i, lhs := range n.Lhs {
 		id, ok := lhs.(*ast.Ident)
 		if !ok || id.Name == "_" || info.Defs[id] != nil {
@@ -70,48 +54,19 @@ func (r *yieldRewriter) rewritePartialRedeclare(c *astutil.Cursor, n *ast.Assign
 		if obj == nil || !r.yieldSinceDeclared(prev, obj) {
 			continue
 		}
-		if paired {
-			if tv := info.Types[n.Rhs[i]]; tv.Value != nil || tv.IsNil() {
-				xs = append(xs, redeclared{i, true})
-				continue
-			}
-		}
-		ty := rhsType(i)
-		if ty == nil || !types.AssignableTo(types.Default(ty), obj.Type()) {
-			return // e.g. untyped bool to named bool type, leave it alone
-		}
-		xs = append(xs, redeclared{i, false})
-	}
-	if len(xs) == 0 {
-		return
-	}
-
-	assign := &ast.AssignStmt{Tok: token.ASSIGN}
-	drop := map[int]bool{}
-	for _, x := range xs {
-		id := n.Lhs[x.idx].(*ast.Ident)
+		// the temporary is declared as a copy of the variable, so it has the very type of the variable,
+		// whatever the rhs is (untyped constant, nil, untyped bool, tuple element ...),
+		// and is then redeclared (assigned) by the original stmt in the same scope
+		r.symCnt++
+		tmp := cstYieldFromRangeVar + id.Name + strconv.Itoa(r.symCnt)
+		c.InsertBefore(X.Define(X.Ident(tmp), X.Ident(id.Name)))
+		n.Lhs[i] = X.Ident(tmp)
 		assign.Lhs = append(assign.Lhs, id)
-		if x.direct {
-			assign.Rhs = append(assign.Rhs, n.Rhs[x.idx])
-			drop[x.idx] = true
-		} else {
-			r.symCnt++
-			tmp := cstYieldFromRangeVar + id.Name + strconv.Itoa(r.symCnt)
-			n.Lhs[x.idx] = X.Ident(tmp)
-			assign.Rhs = append(assign.Rhs, X.Ident(tmp))
-		}
+		assign.Rhs = append(assign.Rhs, X.Ident(tmp))
 	}
-	if len(drop) > 0 {
-		var lhs, rhs []ast.Expr
-		for i := range n.Lhs {
-			if !drop[i] {
-				lhs = append(lhs, n.Lhs[i])
-				rhs = append(rhs, n.Rhs[i])
-			}
-		}
-		n.Lhs, n.Rhs = lhs, rhs
+	if len(assign.Lhs) > 0 {
+		c.InsertAfter(assign)
 	}
-	c.InsertAfter(assign)
 }
 
 // whether a stmt containing yield sits between the declaration of obj and the end of stmts
